@@ -1,0 +1,76 @@
+//go:build verif
+
+// Contracts of this package for the deductive verifier in /verif (vcgo).
+// Comment-only; compiled only with -tags verif.
+
+package cluster
+
+//@ immutable State.localID Node.ID
+//@ nonnil State.metrics State.logger
+
+//@ monitor State.mu level 40 self s guards State.nodes, Node.Status, Node.Endpoints, State.localEndpointSubscribers, State.remoteEndpointSubscribers inv stInv(s)
+
+// The routing table: the local node is always present and active, every node
+// is stored under its own id.
+//@ pure stInv(s *State) bool = s.nodes != nil && s.localID in s.nodes
+//@    && (forall id string {s.nodes[id]} :: id in s.nodes ==> s.nodes[id] != nil && s.nodes[id].ID == id)
+//@    && s.nodes[s.localID].Status == NodeStatusActive
+//@    && (forall e string :: s.nodes[s.localID].Endpoints[e] >= 0)
+
+// counted(ep): the number of local upstreams the routing table records for ep.
+//@ pure localCount(s *State, ep string) int = s.nodes[s.localID].Endpoints[ep]
+
+// A node that LookupEndpoint may return for ep.
+//@ pure eligible(s *State, id string, ep string) bool = id in s.nodes && id != s.localID && s.nodes[id].Status == NodeStatusActive && s.nodes[id].Endpoints[ep] > 0
+
+//@ contract (*Node).Copy
+//@   serves C01 C04 C06
+//@   ensures[fresh] fresh(result)
+//@   ensures[fields] result.ID == n.ID && result.Status == n.Status && result.ProxyAddr == n.ProxyAddr && result.AdminAddr == n.AdminAddr
+//@   ensures[endpoints] forall k string :: result.Endpoints[k] == n.Endpoints[k]
+//@   opt frame true
+//@   loop 1 invariant[copied] forall k string :: k in seen ==> k in endpoints && endpoints[k] == n.Endpoints[k]
+//@   loop 1 invariant[only] forall k string :: k in endpoints ==> k in seen && k in n.Endpoints
+//@   loop 1 invariant[fresh] endpoints != nil && fresh(endpoints)
+
+//@ contract (*State).LookupEndpoint
+//@   serves C01 C04 C06
+//@   ensures[found] result1 ==> result0 != nil && (exists id string :: eligible(s, id, endpointID) && result0.ID == id && result0.ProxyAddr == s.nodes[id].ProxyAddr)
+//@   ensures[not-found] !result1 ==> (forall id string :: !eligible(s, id, endpointID))
+//@   ensures[never-local] result1 ==> result0.ID != s.localID
+//@   opt frame true
+//@   loop 1 invariant[none-yet] forall id string :: id in seen ==> !eligible(s, id, endpointID)
+//@   loop 1 invariant[inv] stInv(s)
+
+//@ contract (*State).AddLocalEndpoint
+//@   serves C05 C20
+//@   opt dyncall LocalEndpointSubscriber
+//@   ensures[count] localCount(s, endpointID) == old(localCount(s, endpointID)) + 1
+//@   ensures[others] forall e string :: e != endpointID ==> localCount(s, e) == old(localCount(s, e))
+//@   ensures[unlocked] !held(State.mu)
+//@   loop 1 invariant[unlocked] !held(State.mu)
+//@   loop 1 invariant[count] localCount(s, endpointID) == old(localCount(s, endpointID)) + 1
+//@   loop 1 invariant[others] forall e string :: e != endpointID ==> localCount(s, e) == old(localCount(s, e))
+
+//@ contract (*State).RemoveLocalEndpoint
+//@   serves C05 C20
+//@   opt dyncall LocalEndpointSubscriber
+//@   ensures[count] localCount(s, endpointID) == (old(localCount(s, endpointID)) > 0 ? old(localCount(s, endpointID)) - 1 : 0)
+//@   ensures[absent-at-zero] localCount(s, endpointID) == 0 && old(localCount(s, endpointID)) > 0 ==> !(endpointID in s.nodes[s.localID].Endpoints)
+//@   ensures[others] forall e string :: e != endpointID ==> localCount(s, e) == old(localCount(s, e))
+//@   ensures[unlocked] !held(State.mu)
+//@   loop 1 invariant[unlocked] !held(State.mu)
+//@   loop 1 invariant[count] localCount(s, endpointID) == old(localCount(s, endpointID)) - 1 && old(localCount(s, endpointID)) > 0
+//@   loop 1 invariant[absent-at-zero] localCount(s, endpointID) == 0 ==> !(endpointID in s.nodes[s.localID].Endpoints)
+//@   loop 1 invariant[others] forall e string :: e != endpointID ==> localCount(s, e) == old(localCount(s, e))
+
+// A subscriber of local endpoint updates runs without the routing table's
+// mutex held and does not change the routing table.
+//@ contract LocalEndpointSubscriber
+//@   trusted function-typed contract: what State requires of the callbacks registered with OnLocalEndpointUpdate; refined by (*syncer).onLocalEndpointUpdate
+//@   requires[unlocked] !held(State.mu)
+
+//@ contract (*State).LocalEndpointListeners
+//@   serves C05
+//@   ensures[count] result == localCount(s, endpointID)
+//@   ensures[read-only] localCount(s, endpointID) == old(localCount(s, endpointID))
